@@ -37,10 +37,12 @@ VerdictProgs == {
   \* measured CPU time above / below the runner's bound
   [name |-> "time-over",    prog |-> "burn",  arg |-> 300,   cpu |-> 0, cpuHard |-> 0, fsize |-> 0, tl_us |-> 100000, ml_kib |-> BigM, calib |-> FALSE],
   [name |-> "time-under",   prog |-> "burn",  arg |-> 40,    cpu |-> 0, cpuHard |-> 0, fsize |-> 0, tl_us |-> 30000000, ml_kib |-> BigM, calib |-> FALSE],
-  \* peak memory above / below / (second run) equal to the runner's bound
-  [name |-> "mem-over",     prog |-> "touch", arg |-> 16384, cpu |-> 0, cpuHard |-> 0, fsize |-> 0, tl_us |-> BigT, ml_kib |-> 8192, calib |-> FALSE],
+  \* peak memory above / below / (second run) equal to the runner's bound.  The bound must be above the
+  \* resident size of the runner process itself: ru_maxrss of the child starts from the image it was
+  \* forked from, so a smaller bound is "exceeded" before the program is even executed.
+  [name |-> "mem-over",     prog |-> "touch", arg |-> 81920, cpu |-> 0, cpuHard |-> 0, fsize |-> 0, tl_us |-> BigT, ml_kib |-> 65536, calib |-> FALSE],
   [name |-> "mem-under",    prog |-> "touch", arg |-> 1024,  cpu |-> 0, cpuHard |-> 0, fsize |-> 0, tl_us |-> BigT, ml_kib |-> BigM, calib |-> FALSE],
-  [name |-> "mem-equal",    prog |-> "touch", arg |-> 8192,  cpu |-> 0, cpuHard |-> 0, fsize |-> 0, tl_us |-> BigT, ml_kib |-> BigM, calib |-> TRUE],
+  [name |-> "mem-equal",    prog |-> "touch", arg |-> 40960, cpu |-> 0, cpuHard |-> 0, fsize |-> 0, tl_us |-> BigT, ml_kib |-> BigM, calib |-> TRUE],
   \* file growing past / staying below RLIMIT_FSIZE
   [name |-> "fsize-over",   prog |-> "grow",  arg |-> 262144, cpu |-> 0, cpuHard |-> 0, fsize |-> 65536, tl_us |-> BigT, ml_kib |-> BigM, calib |-> FALSE],
   [name |-> "fsize-under",  prog |-> "grow",  arg |-> 32768,  cpu |-> 0, cpuHard |-> 0, fsize |-> 65536, tl_us |-> BigT, ml_kib |-> BigM, calib |-> FALSE] }
